@@ -30,7 +30,7 @@ corpus, run, shrink, replay = make(
     ID, ["superdtl", "base_uspfs"],
     [(lambda ctx, rng: solvers.unordered_case(ctx, rng, 5, 4, 4), 1.0)],
     lambda res, r: solvers.judge_optimal(res, r, ID),
-    quick=700, thorough=6000, corpus_cases=CORPUS, known_algos=["superdtl"],
+    quick=1200, thorough=8000, corpus_cases=CORPUS, known_algos=["superdtl"],
 )
 
 
